@@ -12,6 +12,12 @@
   received.  When both are possible either may be chosen (Go picks at random).  A select at which nothing
   is ready blocks until something is: not an event, hence not modelled (the context never firing while a
   sender never becomes ready is outside the claim).
+* a send case in a select (`select { case c <- v: ...; case <-ctx.Done(): ... }`, executed in a goroutine body at
+  its spawn point): taking the send case is always possible and queues the value like a plain send; the
+  done case is possible when the context has fired by then (the deadline passing before the sender gets
+  to its select - every such schedule is a real one; a deadline that passes only while the sender already
+  waits in the select is not explored).  A value whose send case is not taken is never offered, so a
+  receiver that counts on it is reported as waiting forever.
 * context.Background / WithTimeout / WithCancel: abstract contexts with a monotone symbolic 'fired' flag.
 """
 import z3
@@ -151,6 +157,12 @@ def install(E):
                 ready.append(cx["fired"])
                 vals.append(None)
                 fires.append((i, fire))
+            elif d == 1:
+                # send case: like a plain send, the sender offers its value and is matched by whoever
+                # receives it later ("sender blocked in its send, value ready"); taking this case is always
+                # possible, the other cases of the same select are possible under their own conditions
+                ready.append(TRUE)
+                vals.append(c)
             else:
                 avail = Or(*[And(s["g"], Not(s["taken"])) for s in c.sends]) if c.sends else FALSE
                 ready.append(avail)
@@ -171,7 +183,9 @@ def install(E):
         k = 2
         for i, (d, ch, sv) in enumerate(states):
             if d == 1:
-                raise Exception("send case in select not modelled")
+                # the value is offered only when this case is the one taken (no result element)
+                vals[i].sends.append({"g": And(E.guard, choice == i), "v": sv, "taken": FALSE, "at": z3.BitVecVal(NEVER, 8)})
+                continue
             c = vals[i]
             if c is None:
                 out.append(E.zero(E.prog.type(tt[k])))
